@@ -182,7 +182,7 @@ class Magnitude:
     def __pow__(self, power: Union[float,int]):
         value = self.value**power
         if self.error is not None:
-            error = self._rel_to_abs(self._abs_to_rel()*power)
+            error = abs(self._rel_to_abs(self._abs_to_rel()*power))
         else:
             error = None
         return Magnitude(value, error)
